@@ -26,6 +26,7 @@ def _names(e):
 def run(ctx):
     from . import simrules
     simrules.run_records_rule(ctx, 'C18.k', floor=10)
+    _int64_guard_rule(ctx, ctx.repo)
     from . import c17 as _c17
     _c17._rows_from_per_shot_sequence(ctx, repo := ctx.repo, rid='C18.l')
     ctx.decided.append('C18.k samplers assemble run() results from all records of the classical data store, not from the latest-record view')
@@ -735,3 +736,63 @@ def _batch_result_order(ctx, repo):
                'to another program', m.rel, bad[0].lineno if bad else fn.lineno)
     if n == 0:
         raise AnalysisError('C18.j: run_batch_async vanished')
+
+
+def _int64_guard_rule(ctx, repo):
+    """C18.m - the NumPy fast path of the histogram is taken only when every folded value fits into int64."""
+    ctx.decided.append('C18.m Result._vectorized_histogram declines (returns None) whenever fold_base ** n_qubits - 1 exceeds the int64 range, for every integer base (interpreted on probe '
+                       'pairs around the boundary for bases 2, 3, 4, 10)')
+    ctx.rule('C18.m', 'no silent wrap in the fast histogram: interpreting the head of Result._vectorized_histogram for an integer fold_base b and n measured digits, the function returns None '
+             'before it builds the int64 power table whenever b**n - 1 > 2**63 - 1 (and may take the fast path otherwise) - a test on the number of digits alone is right for base 2 only',
+             floor=16, style='FDX')
+    res = repo.cls('cirq.study.result.Result')
+    fn = res.methods.get('_vectorized_histogram')
+    if fn is None:
+        raise AnalysisError('Result._vectorized_histogram vanished')
+
+    class _Fast(Exception):
+        pass
+    probes = [(None, 62), (None, 63), (None, 64), (2, 63), (2, 64), (3, 39), (3, 40), (3, 45), (3, 63), (4, 31), (4, 32), (4, 40), (10, 18), (10, 19), (10, 25), (5, 27), (5, 28), (7, 22), (7, 23)]
+    for base, n in probes:
+        def call_hook(call, it):
+            s_ = ast.unparse(call.func)
+            if s_.endswith('arange') or s_.endswith('cumprod'):
+                raise _Fast()
+            if s_ == '_key_to_str':
+                return 'k'
+            if s_.endswith('iinfo'):
+                return {'max': 2 ** 63 - 1, 'min': -2 ** 63, 'bits': 64}
+            return NotImplemented
+
+        class _M:
+            shape = (5, n)
+        meas = {'k': _M()}
+
+        def attr_hook(node, it):
+            if isinstance(node.value, ast.Name) and node.value.id == 'self' and node.attr == 'measurements':
+                return meas
+            if node.attr == 'shape':
+                try:
+                    v = it.ev(node.value)
+                except fdx.Unsupported:
+                    return NotImplemented
+                if isinstance(v, _M):
+                    return v.shape
+            if node.attr in ('int64',) and isinstance(node.value, ast.Name) and node.value.id in ('np', 'numpy'):
+                return 'int64'
+            return NotImplemented
+        it = fdx.NumInterp({'self': {}, 'key': 'k', 'fold_base': base, 'batch_size': 50000}, call_hook=call_hook, attr_hook=attr_hook)
+        took_fast = False
+        try:
+            out = it.call(fn)
+        except _Fast:
+            took_fast = True
+            out = 'fast path'
+        except (fdx.Unsupported, fdx.Raised) as ex:
+            raise AnalysisError(f'Result._vectorized_histogram head is outside the interpretable subset: {ex}')
+        b = 2 if base is None else base
+        overflow = b ** n - 1 > 2 ** 63 - 1
+        ok = (not overflow) or (out is None and not took_fast)
+        ctx.ob('C18.m', f'{res.qual}._vectorized_histogram:base={base}:n={n}', ok, '' if ok else
+               f'fold_base={base}, {n} digits: the largest value {b}**{n}-1 does not fit into int64, yet the function goes on to build the int64 power table: the folded keys wrap around '
+               '(negative / colliding histogram keys) instead of falling back to exact Python integers', res.mod.rel, fn.lineno, construct=f'{res.qual}._vectorized_histogram')
